@@ -1,6 +1,6 @@
 SPECIFICATION MCSpec
 CONSTANTS
   Thorough = FALSE
-  EmitReplay = FALSE
+  EmitReplay = TRUE
 INVARIANTS I_Total I_OutcomeShape I_UnknownSelector I_WrongKind I_OutOfRange I_InRangeAnswered I_IndexIgnored I_PolicyLaw I_PointerInImage I_ValueFits I_ZeroedLaw I_AliasesAgree TableWellFormed GmTotal GmContext Emit
 CHECK_DEADLOCK FALSE
